@@ -41,6 +41,22 @@ def is_sized(t):
     return t[1]
 
 
+def wide_len(t):
+    """does the type use a length / offset type wider than usize (known finding D15)?"""
+    k = t[0]
+    if k in ('vec', 'flex'):
+        return INTS[t[2]][0] > 8 or wide_len(t[1])
+    if k == 'str':
+        return INTS[t[1]][0] > 8
+    if k == 'arr':
+        return wide_len(t[1])
+    if k == 'struct':
+        return any(wide_len(f) for f in t[2])
+    if k == 'enum':
+        return any(wide_len(f) for v in t[4] for f in v)
+    return False
+
+
 def has_default(t):
     k = t[0]
     if k in ('unit', 'bool', 'int', 'clike', 'vec', 'str', 'flex'):
@@ -605,9 +621,14 @@ def small_layer():
     return out
 
 
+def known_shapes():
+    """shapes that exhibit a listed known finding (known_findings.txt)"""
+    return [V(U8, 'u128'), FS('u128'), FX(U8, 'u128')]
+
+
 def build(seed, n_random, with_small=False):
     rng = random.Random(seed)
-    ts = list(fixed_shapes())
+    ts = list(fixed_shapes()) + known_shapes()
     if with_small:
         ts += small_layer()
     for _ in range(n_random):
